@@ -68,6 +68,8 @@ extern int mpt_queue_recv(MPT_STRUCT(decode_queue) *qu)
 	ssize_t res;
 	
 	if (!(len = qu->data.len)) {
+		/* consume current (empty) message */
+		qu->_state.data.msg = -1;
 		return MPT_ERROR(MissingData);
 	}
 	/* get new data part */
